@@ -128,12 +128,13 @@ Fixpoint fstmt (t : tree) (fk : list (string * kid ftree)) (r : fres) (s : gstmt
   | GNode p checked =>
     match fsub fk p with
     | Some (One (Some c)) => fthen r (ft_fn c)
+    | Some (Many _) => ferr r                     (* ill-typed tree: a list where the Go field holds one node *)
     | _ => if checked then r else ferr r          (* addNodeFragments(nil): n.Pos() on a nil interface *)
     end
   | GList p =>
     match fsub fk p with
     | Some (Many l) => fold_left (fun r c => fthen r (ft_fn c)) l r
-    | Some (One (Some c)) => fthen r (ft_fn c)
+    | Some (One (Some _)) => ferr r               (* ill-typed tree: one node where the Go field holds a slice *)
     | _ => r
     end
   | GIf c body =>
